@@ -56,6 +56,7 @@ T4 = [
  ("C17","m1","sharder/demo_test.go",{"C17":"nodes_disagree_on_owner"},"caught","","C17-m3"),
  ("C17","m2","internal/peer/demo_test.go",{"C17":"owner_not_a_peer","C18":"peer_entry_expired_early"},"caught","","C17-m4"),
  ("C19","m1","route/zz_demo_c19_test.go",{"C19":"event_handled_more_than_once"},"caught","","C19-m3"),
+ ("C36","m2","collect/demo_stop_inflight_decision_test.go",{"C36":"accepted_span_lost_at_shutdown"},"missed, then caught after strengthening","new fault: every worker is held at its next decision (tracer seam) some time before the shutdown and let go after Stop has been called, so the rest of a decision round happens during the shutdown; a lost span whose trace the decision cache remembers as kept (and with no span queued at the stop) is not attributed to the recorded finding","C36-m3"),
 ]
 if os.environ.get("WAVE") == "3":
     T = T3
